@@ -1297,7 +1297,7 @@ fn case_strategy() -> impl Strategy<Value = Case> {
     any::<bool>(),
     prop_oneof![2 => Just(Some("JWT".to_string())), 1 => Just(None), 1 => Just(Some("vc+ld+jwt".to_string()))],
     prop::bool::weighted(0.3),
-    custom_claims_strategy(),
+    custom_claims_strategy_with(CREDENTIAL_FREE_CLAIM_NAMES),
     prop_oneof![
       16 => Just(ClaimSpelling::Library),
       2 => Just(ClaimSpelling::ExpiryInVcOnly),
